@@ -140,6 +140,9 @@ var fuzzSeeds = []string{
 	// names with backslashes are ordinary names, different from their slash twins
 	"p src\\evil.sh 1\np ok.txt 1\nP ALLOW ok.txt\nP ALLOW src/*\nP DISALLOW *",
 	"m dist\\pkg 1\nm a\\b 2\np a/b 2\ndp dist/pkg 1\nM MATCH * WITH PRODUCTS FROM dst\nM DISALLOW a\\\\b\nP MODIFY *\nP DISALLOW *",
+	// destination prefix denoting the top directory of the referenced step; a source recorded outside the working directory
+	"m foo.o 1\ndp foo.o 1\nM MATCH * WITH PRODUCTS IN . FROM dst\nM DISALLOW *",
+	"m ../shared/lib.c 1\ndp shared/lib.c 1\nM MATCH * WITH PRODUCTS IN out FROM dst\nM REQUIRE ../shared/lib.c",
 	// REQUIRE on an empty or fully consumed queue
 	"M REQUIRE foo\nP REQUIRE foo\nP ALLOW *",
 	"m foo 1\ndp foo 1\nM MATCH * WITH PRODUCTS FROM dst\nM REQUIRE foo\nM DISALLOW *",
